@@ -211,6 +211,9 @@ class World:
                 return target.update(*args, **kw)
             target |= args[0]
             return None
+        if m == "ror":
+            plain = dict([(P(k), P(v)) for k, v in codec.seq(op["kvs"])]) if ref else dict(self.dsrc(op["src"])[0][0])
+            return plain | target
         if m == "update_kw":
             args, _ = self.dsrc(op["src"])
             kw = {P(k): P(v) for k, v in codec.seq(op["kw"])}
@@ -422,7 +425,7 @@ def driver(cinco, seed, n_traces, length):
                     continue
                 ev = {"c": "list", "op": op}
             else:
-                m = rng.choice(["setitem", "update", "update_kw", "ior", "setdefault", "pop", "popd", "popitem", "delitem", "clear", "copy", "get", "contains", "keys", "len"])
+                m = rng.choice(["setitem", "update", "update_kw", "ior", "ror", "setdefault", "pop", "popd", "popitem", "delitem", "clear", "copy", "get", "contains", "keys", "len"])
                 op = {"m": m}
                 if m in ("setitem", "setdefault", "popd"):
                     op.update(k=key(), v=val())
@@ -430,6 +433,8 @@ def driver(cinco, seed, n_traces, length):
                     op["src"] = dsrc()
                     if m == "ior" and op["src"]["k"] == "kwargs":
                         continue
+                elif m == "ror":
+                    op["src"] = {"k": "dict", "kvs": [[S(k), {"t": "int", "i": rng.randint(0, 9)}] for k in rng.sample(["A", "B", "K1", "Z"], rng.randint(0, 3))]}
                 elif m == "update_kw":
                     op["src"] = dsrc()
                     if op["src"]["k"] in ("kwargs", "pairs"):
